@@ -362,7 +362,6 @@ Qed.
 Lemma ref_at_ext w more :
   match ref_at w with
   | XChars o u => (1 <= u <= length w)%nat /\ ref_at (w ++ more) = XChars o u
-  | XAbort => ref_at (w ++ more) = XAbort
   | XStall => True
   end.
 Proof.
@@ -373,14 +372,14 @@ Proof.
     + pose proof (strtoent_ext 16 more rest2 0 O) as He.
       pose proof (strtoent_used 16 rest2 0 O) as Hu.
       destruct (strtoent 16 rest2 0 O) as [v n| |] eqn:Es.
-      * rewrite He. destruct (v =? 0); [reflexivity|].
+      * rewrite He. destruct (v =? 0); [unfold verbatim; cbn [length]; split; [lia|reflexivity]|].
         specialize (Hu v n eq_refl). cbn [length]. split; [lia|reflexivity].
       * exact I.
       * rewrite He. unfold verbatim. cbn [length]. split; [lia|reflexivity].
     + pose proof (strtoent_ext 10 more (c2 :: rest2) 0 O) as He.
       pose proof (strtoent_used 10 (c2 :: rest2) 0 O) as Hu.
       destruct (strtoent 10 (c2 :: rest2) 0 O) as [v n| |] eqn:Es.
-      * cbn [app] in He. rewrite He. destruct (v =? 0); [reflexivity|].
+      * cbn [app] in He. rewrite He. destruct (v =? 0); [unfold verbatim; cbn [length]; split; [lia|reflexivity]|].
         specialize (Hu v n eq_refl). cbn [length] in *. split; [lia|reflexivity].
       * exact I.
       * cbn [app] in He. rewrite He. unfold verbatim. cbn [length]. split; [lia|reflexivity].
@@ -405,42 +404,40 @@ Proof.
 Qed.
 
 (* the conversion of a window that is not known to be complete, continued on a longer window *)
-Lemma conv_resume f more : forall w s o k e, (s <= length w)%nat ->
-  conv false w s = (o, k, e) ->
+Lemma conv_resume f more : forall w s o k, (s <= length w)%nat ->
+  conv false w s = (o, k) ->
   (k <= length w)%nat /\
   conv f (w ++ more) s =
-    if e then (o, k, true)
-    else match conv f (skipn k w ++ more) O with (o2, k2, e2) => (o ++ o2, (k + k2)%nat, e2) end.
+    match conv f (skipn k w ++ more) O with (o2, k2) => (o ++ o2, (k + k2)%nat) end.
 Proof.
-  induction w as [|ch tl IH]; intros s o k e Hs H.
-  - cbn [length] in Hs. assert (s = O) by lia. subst s. cbn [conv] in H. injection H as <- <- <-.
-    split; [cbn; lia|]. cbn [app skipn]. destruct (conv f more O) as [[o2 k2] e2]. reflexivity.
+  induction w as [|ch tl IH]; intros s o k Hs H.
+  - cbn [length] in Hs. assert (s = O) by lia. subst s. cbn [conv] in H. injection H as <- <-.
+    split; [cbn; lia|]. cbn [app skipn]. destruct (conv f more O) as [o2 k2]. reflexivity.
   - cbn [conv] in H. destruct s as [|s].
     + destruct (ch =? 38) eqn:Ec.
       * pose proof (ref_at_ext (ch :: tl) more) as Hr.
-        destruct (ref_at (ch :: tl)) as [out used| |] eqn:Er.
+        destruct (ref_at (ch :: tl)) as [out used| ] eqn:Er.
         -- destruct Hr as [Hu Hr]. cbn [app] in Hr |- *. cbn [conv]. rewrite Ec, Hr.
-           destruct (conv false tl (used - 1)) as [[o1 k1] e1] eqn:E1.
-           injection H as <- <- <-.
+           destruct (conv false tl (used - 1)) as [o1 k1] eqn:E1.
+           injection H as <- <-.
            cbn [length] in Hu.
-           destruct (IH (used - 1)%nat o1 k1 e1 ltac:(lia) E1) as [Hk Hx].
-           split; [cbn [length]; lia|]. rewrite Hx. destruct e1; [reflexivity|].
-           cbn [skipn]. destruct (conv f (skipn k1 tl ++ more) O) as [[o2 k2] e2].
+           destruct (IH (used - 1)%nat o1 k1 ltac:(lia) E1) as [Hk Hx].
+           split; [cbn [length]; lia|]. rewrite Hx.
+           cbn [skipn]. destruct (conv f (skipn k1 tl ++ more) O) as [o2 k2].
            rewrite app_assoc. reflexivity.
-        -- injection H as <- <- <-. split; [lia|]. cbn [skipn].
-           destruct (conv f ((ch :: tl) ++ more) O) as [[o2 k2] e2]. reflexivity.
-        -- injection H as <- <- <-. split; [lia|]. cbn [app] in Hr |- *. cbn [conv]. rewrite Ec, Hr. reflexivity.
+        -- injection H as <- <-. split; [lia|]. cbn [skipn].
+           destruct (conv f ((ch :: tl) ++ more) O) as [o2 k2]. reflexivity.
       * cbn [app conv]. rewrite Ec.
-        destruct (conv false tl O) as [[o1 k1] e1] eqn:E1. injection H as <- <- <-.
-        destruct (IH O o1 k1 e1 ltac:(lia) E1) as [Hk Hx].
-        split; [cbn [length]; lia|]. rewrite Hx. destruct e1; [reflexivity|].
-        cbn [skipn]. destruct (conv f (skipn k1 tl ++ more) O) as [[o2 k2] e2]. reflexivity.
+        destruct (conv false tl O) as [o1 k1] eqn:E1. injection H as <- <-.
+        destruct (IH O o1 k1 ltac:(lia) E1) as [Hk Hx].
+        split; [cbn [length]; lia|]. rewrite Hx.
+        cbn [skipn]. destruct (conv f (skipn k1 tl ++ more) O) as [o2 k2]. reflexivity.
     + cbn [app conv].
-      destruct (conv false tl s) as [[o1 k1] e1] eqn:E1. injection H as <- <- <-.
+      destruct (conv false tl s) as [o1 k1] eqn:E1. injection H as <- <-.
       cbn [length] in Hs.
-      destruct (IH s o1 k1 e1 ltac:(lia) E1) as [Hk Hx].
-      split; [cbn [length]; lia|]. rewrite Hx. destruct e1; [reflexivity|].
-      cbn [skipn]. destruct (conv f (skipn k1 tl ++ more) O) as [[o2 k2] e2]. reflexivity.
+      destruct (IH s o1 k1 ltac:(lia) E1) as [Hk Hx].
+      split; [cbn [length]; lia|]. rewrite Hx.
+      cbn [skipn]. destruct (conv f (skipn k1 tl ++ more) O) as [o2 k2]. reflexivity.
 Qed.
 
 Lemma find_lt_shift : forall w i, find_lt w i = option_map (fun j => (i + j)%nat) (find_lt w O).
@@ -486,10 +483,10 @@ Proof.
   - (* RC_WMORE is resumable *)
     intros acc p k c' H. unfold entref_step in H.
     destruct (find_lt p O) as [i|] eqn:Ef.
-    { destruct (conv true (firstn i p) O) as [[o k0] [|]]; discriminate. }
-    destruct (conv false p O) as [[o k0] e] eqn:Ec. destruct e; [discriminate|].
+    { destruct (conv true (firstn i p) O) as [o k0]; discriminate. }
+    destruct (conv false p O) as [o k0] eqn:Ec.
     injection H as <- <-.
-    destruct (conv_resume false [] p O o k0 false ltac:(lia) Ec) as [Hk _].
+    destruct (conv_resume false [] p O o k0 ltac:(lia) Ec) as [Hk _].
     split; [exact Hk|]. intros more. unfold entref_step.
     rewrite (find_lt_none p more Ef).
     rewrite (find_lt_none (skipn k0 p) more (find_lt_skipn_none p k0 Ef)).
@@ -498,27 +495,48 @@ Proof.
       replace (length p + j - length p)%nat with j by lia.
       rewrite firstn_app, (firstn_all2 (skipn k0 p)) by lia.
       replace (length (skipn k0 p) + j - length (skipn k0 p))%nat with j by lia.
-      destruct (conv_resume true (firstn j more) p O o k0 false ltac:(lia) Ec) as [_ Hx].
-      rewrite Hx. destruct (conv true (skipn k0 p ++ firstn j more) O) as [[o2 k2] e2].
-      destruct e2; unfold shift; rewrite app_assoc; reflexivity.
-    + destruct (conv_resume false more p O o k0 false ltac:(lia) Ec) as [_ Hx].
-      rewrite Hx. destruct (conv false (skipn k0 p ++ more) O) as [[o2 k2] e2].
-      destruct e2; unfold shift; rewrite app_assoc; reflexivity.
-  - (* RC_OK and the abort are final *)
+      destruct (conv_resume true (firstn j more) p O o k0 ltac:(lia) Ec) as [_ Hx].
+      rewrite Hx. destruct (conv true (skipn k0 p ++ firstn j more) O) as [o2 k2].
+      unfold shift; rewrite app_assoc; reflexivity.
+    + destruct (conv_resume false more p O o k0 ltac:(lia) Ec) as [_ Hx].
+      rewrite Hx. destruct (conv false (skipn k0 p ++ more) O) as [o2 k2].
+      unfold shift; rewrite app_assoc; reflexivity.
+  - (* RC_OK is final *)
     intros acc p r k c' H Hr more. unfold entref_step in *.
     destruct (find_lt p O) as [i|] eqn:Ef.
     + destruct (find_lt_some p i Ef) as [Hi Hm]. rewrite Hm.
       rewrite firstn_app. replace (i - length p)%nat with O by lia.
       rewrite firstn_O, app_nil_r. exact H.
-    + destruct (conv false p O) as [[o k0] e] eqn:Ec. destruct e.
-      * rewrite (find_lt_none p more Ef).
-        destruct (find_lt more O) as [j|]; cbn [option_map].
-        -- rewrite firstn_app, (firstn_all2 p) by lia.
-           destruct (conv_resume true (firstn (length p + j - length p) more) p O o k0 true ltac:(lia) Ec) as [_ Hx].
-           rewrite Hx. exact H.
-        -- destruct (conv_resume false more p O o k0 true ltac:(lia) Ec) as [_ Hx].
-           rewrite Hx. exact H.
-      * injection H as <- _ _. congruence.
+    + destruct (conv false p O) as [o k0] eqn:Ec.
+      injection H as <- _ _. congruence.
+Qed.
+
+(* the reader never fails: a text body is converted whatever it holds; with a
+   '<' in the window it is complete (RC_OK), without one more is wanted *)
+Theorem entref_total acc w :
+  exists k o, (k <= length w)%nat /\
+    entref_step acc w = ((if find_lt w O then OK else MORE), k, acc ++ o).
+Proof.
+  unfold entref_step. destruct (find_lt w O) as [i|] eqn:Ef.
+  - destruct (conv true (firstn i w) O) as [o k] eqn:Ec.
+    exists k, o. split; [|reflexivity].
+    assert (Hc : forall f v s o k, conv f v s = (o, k) -> (k <= length v)%nat).
+    { clear. intros f. induction v as [|ch tl IH]; intros s o k H; cbn [conv] in H.
+      - injection H as <- <-. cbn. lia.
+      - cbn [length]. destruct s as [|s].
+        + destruct (ch =? 38).
+          * destruct (ref_at (ch :: tl)) as [out used|].
+            -- destruct (conv f tl (used - 1)) as [o1 k1] eqn:E1. injection H as <- <-.
+               apply IH in E1. lia.
+            -- destruct f.
+               ++ destruct (conv true tl O) as [o1 k1] eqn:E1. injection H as <- <-. apply IH in E1. lia.
+               ++ injection H as <- <-. lia.
+          * destruct (conv f tl O) as [o1 k1] eqn:E1. injection H as <- <-. apply IH in E1. lia.
+        + destruct (conv f tl s) as [o1 k1] eqn:E1. injection H as <- <-. apply IH in E1. lia. }
+    apply Hc in Ec. rewrite firstn_length in Ec. lia.
+  - destruct (conv false w O) as [o k] eqn:Ec.
+    exists k, o. split; [|reflexivity].
+    destruct (conv_resume false [] w O o k ltac:(lia) Ec) as [Hk _]. exact Hk.
 Qed.
 
 Corollary entref_chunk_independent acc input chunks :
@@ -528,14 +546,14 @@ Proof. apply coherent_implies_chunk_independent. apply entref_coherent. Qed.
 (* ---- the body reader inverts the escaping of the XER encoder ---- *)
 
 Lemma conv_skip f : forall a w, conv f (a ++ w) (length a) =
-  match conv f w O with (o, k, e) => (o, (length a + k)%nat, e) end.
+  match conv f w O with (o, k) => (o, (length a + k)%nat) end.
 Proof.
   induction a as [|x a IH]; intros w; cbn [app length conv].
-  - destruct (conv f w O) as [[o k] e]. reflexivity.
-  - rewrite IH. destruct (conv f w O) as [[o k] e]. reflexivity.
+  - destruct (conv f w O) as [o k]. reflexivity.
+  - rewrite IH. destruct (conv f w O) as [o k]. reflexivity.
 Qed.
 
-Lemma conv_escape f : forall s, conv f (xer_escape s) O = (s, length (xer_escape s), false).
+Lemma conv_escape f : forall s, conv f (xer_escape s) O = (s, length (xer_escape s)).
 Proof.
   induction s as [|ch tl IH]; [reflexivity|]. cbn [xer_escape].
   destruct (ch =? 38) eqn:E1.
